@@ -3,6 +3,7 @@ package main
 import (
 	"fmt"
 	"math/rand"
+	"strconv"
 
 	"github.com/peterstace/simplefeatures/geom"
 )
@@ -104,18 +105,22 @@ func applyStructOp(g geom.Geometry, act string, arg T) geom.Geometry {
 		}
 		return g
 	case "mkgc":
-		return geom.NewGeometryCollection([]geom.Geometry{g, buildTree(arg)}).AsGeometry()
+		ms := append(make([]geom.Geometry, 0, 6), g, buildTree(arg))
+		return ctorTwice(len(ms), func(i int) geom.Geometry { return ms[i] }, func() geom.Geometry { return geom.NewGeometryCollection(ms).AsGeometry() })
 	case "mkgc1":
 		return geom.NewGeometryCollection([]geom.Geometry{g}).AsGeometry()
 	case "mkmulti":
 		o := buildTree(arg)
 		switch g.Type() {
 		case geom.TypePoint:
-			return geom.NewMultiPoint([]geom.Point{g.MustAsPoint(), o.MustAsPoint()}).AsGeometry()
+			arg := append(make([]geom.Point, 0, 6), g.MustAsPoint(), o.MustAsPoint())
+			return ctorTwice(len(arg), func(i int) geom.Geometry { return arg[i].AsGeometry() }, func() geom.Geometry { return geom.NewMultiPoint(arg).AsGeometry() })
 		case geom.TypeLineString:
-			return geom.NewMultiLineString([]geom.LineString{g.MustAsLineString(), o.MustAsLineString()}).AsGeometry()
+			arg := append(make([]geom.LineString, 0, 6), g.MustAsLineString(), o.MustAsLineString())
+			return ctorTwice(len(arg), func(i int) geom.Geometry { return arg[i].AsGeometry() }, func() geom.Geometry { return geom.NewMultiLineString(arg).AsGeometry() })
 		case geom.TypePolygon:
-			return geom.NewMultiPolygon([]geom.Polygon{g.MustAsPolygon(), o.MustAsPolygon()}).AsGeometry()
+			arg := append(make([]geom.Polygon, 0, 6), g.MustAsPolygon(), o.MustAsPolygon())
+			return ctorTwice(len(arg), func(i int) geom.Geometry { return arg[i].AsGeometry() }, func() geom.Geometry { return geom.NewMultiPolygon(arg).AsGeometry() })
 		}
 		panic("mkmulti on " + g.Type().String())
 	case "nop":
@@ -133,7 +138,8 @@ func applyStructOp(g geom.Geometry, act string, arg T) geom.Geometry {
 		}
 		return r
 	case "mkpoly":
-		return geom.NewPolygon([]geom.LineString{g.MustAsLineString(), buildTree(arg).MustAsLineString()}).AsGeometry()
+		rings := append(make([]geom.LineString, 0, 6), g.MustAsLineString(), buildTree(arg).MustAsLineString())
+		return ctorTwice(len(rings), func(i int) geom.Geometry { return rings[i].AsGeometry() }, func() geom.Geometry { return geom.NewPolygon(rings).AsGeometry() })
 	case "snap0":
 		return g.SnapToGrid(0)
 	case "densify":
@@ -317,6 +323,34 @@ func structExec(c Case) Event {
 		}
 	}
 	return Event{"start": start, "steps": steps, "nt": !g.IsEmpty(), "nevents": len(steps)}
+}
+
+// ctorTwice calls a constructor that takes a slice, with spare capacity behind the slice, and insists on what every caller
+// relies on: the slice still holds what was put into it (the constructor reduces mixed coordinate types in its own
+// copy), the same call again gives the same value, and the first value is not touched by the second call. A failure is
+// reported like a panic of the step.
+func ctorTwice(n int, elem func(i int) geom.Geometry, build func() geom.Geometry) geom.Geometry {
+	dig := func(g geom.Geometry) string {
+		return g.CoordinatesType().String() + ":" + g.Type().String() + ":" + string(g.AsBinary())
+	}
+	before := make([]string, n)
+	for i := range before {
+		before[i] = dig(elem(i))
+	}
+	r1 := build()
+	d1 := dig(r1)
+	for i := range before {
+		if dig(elem(i)) != before[i] {
+			panic("constructor rewrote element " + strconv.Itoa(i) + " of the slice it was given")
+		}
+	}
+	if dig(build()) != d1 {
+		panic("the same constructor call again gives another value")
+	}
+	if dig(r1) != d1 {
+		panic("an earlier result changed when the constructor was called again")
+	}
+	return r1
 }
 
 var structActs = []string{"force", "force", "force2d", "reverse", "swapxy", "asmulti", "mkgc", "mkgc1", "mkmulti", "mkpoly", "viactor", "geojson", "snap0", "densify", "wkb", "wkt", "forcecw", "forceccw"}
